@@ -102,7 +102,11 @@ fn main() {
             let ops: usize = arg_value(&args, "--ops").map(|value| value.parse().unwrap()).unwrap_or(300);
             let timeout_ms: u64 = arg_value(&args, "--timeout-ms").map(|value| value.parse().unwrap()).unwrap_or(20_000);
             std::panic::set_hook(Box::new(|_| {}));
-            let outcome = stress::run(seed, rounds, threads, ops, Duration::from_millis(timeout_ms));
+            let reads_pct: u32 = arg_value(&args, "--reads-pct").map(|value| value.parse().unwrap()).unwrap_or(0);
+            let mut final_out = arg_value(&args, "--out").map(|path| BufWriter::new(std::fs::File::create(&path).expect("create out")));
+            let outcome = stress::run(seed, rounds, threads, ops, Duration::from_millis(timeout_ms), reads_pct,
+                                      final_out.as_mut().map(|writer| writer as &mut dyn Write));
+            if let Some(writer) = final_out.as_mut() { writer.flush().unwrap(); }
             println!("STRESS {}", serde_json::json!({"rounds": outcome.rounds, "ops": outcome.ops, "stall": outcome.stall}));
             if outcome.stall.is_some() { std::process::exit(3); }
         }
